@@ -380,6 +380,11 @@ def build_ops(fam, mpc, m):
                     return None                    # outside the domain of the recombination method
                 if fam.cl and (ev % q) * next(k for k in fam.dom if fam.elem(k) is a) % q == 0:
                     return None
+                if fam.cl and tag == 'Z' and m > 1:
+                    # a secure INTEGER exponent is taken through the bitwise (binary) method since the repair of F1, as for
+                    # secret bases; that method passes through the identity, which Costello-Lauter divisors do not support
+                    # (documented restriction, see sb_ref)
+                    return None
                 return G.repeat(a, ev if tag == 'F' else e)
 
             def sb_ref(a, ev=ev):
